@@ -247,6 +247,56 @@ package gocql
 //@   requires f.header != nil
 
 // ---------------------------------------------------------------------------
+// metadata.go / helpers.go: type definitions from the schema tables (any string)
+// Object invariant of typeParser: 0 <= index <= len(input).
+// ---------------------------------------------------------------------------
+
+//@ func (t *typeParser) skipWhitespace
+//@   props C05
+//@   requires 0 <= t.index && t.index <= len(t.input)
+//@   modifies t.index
+//@   ensures old(t.index) <= t.index && t.index <= len(t.input)
+//@   loop 0: invariant old(t.index) <= t.index && t.index <= len(t.input)
+
+//@ func (t *typeParser) nextIdentifier
+//@   props C05
+//@   requires 0 <= t.index && t.index <= len(t.input)
+//@   modifies t.index
+//@   ensures old(t.index) <= t.index && t.index <= len(t.input) && (found ==> old(t.index) < t.index)
+//@   loop 0: invariant old(t.index) <= t.index && t.index <= len(t.input) && startIndex == old(t.index)
+
+//@ func (t *typeParser) parseClassNode
+//@   props C05
+//@   requires 0 <= t.index && t.index <= len(t.input)
+//@   modifies t.index
+//@   ensures old(t.index) <= t.index && t.index <= len(t.input) && (ok ==> node != nil)
+
+//@ func (t *typeParser) parseParamNodes
+//@   props C05
+//@   requires 0 <= t.index && t.index <= len(t.input)
+//@   modifies t.index
+//@   ensures old(t.index) <= t.index && t.index <= len(t.input)
+//@   loop 0: invariant old(t.index) <= t.index && t.index <= len(t.input)
+
+//@ func (class *typeParserClassNode) asTypeInfo
+//@   props C05
+//@   modifies nothing
+
+//@ func (t *typeParser) parse
+//@   props C05
+//@   requires 0 <= t.index && t.index <= len(t.input) && t.logger != nil
+//@   loop 1: invariant len(types) == count && len(reversed) == count
+
+//@ func parseType
+//@   props C05
+//@   requires logger != nil
+
+//@ func getCassandraType
+//@   props C05
+//@   requires logger != nil
+//@   loop 0: invariant len(types) == len(names)
+
+// ---------------------------------------------------------------------------
 // uuid.go (RFC 4122; oracle in /verif/spec/bv.smt2 blocks uuid, hex)
 // ---------------------------------------------------------------------------
 
